@@ -33,6 +33,7 @@ CFGS = {
     # name: (driver, std, defs)
     'main17': ('inst_main.cpp', 'c++17', ['-DAMC_NONSTD_FEATURES', '-DNDEBUG']),
     'main14dbg': ('inst_main.cpp', 'c++14', []),                 # C++14, standard API only, assertions enabled
+    'main11dbg': ('inst_main.cpp', 'c++11', []),                 # C++11 (pre-C++14 branches: exchange, swap_sizetype ...), assertions enabled
     'main20': ('inst_main.cpp', 'c++20', ['-DAMC_NONSTD_FEATURES', '-DNDEBUG']),
     'sets17': ('inst_sets.cpp', 'c++17', ['-DAMC_NONSTD_FEATURES', '-DNDEBUG']),
 }
